@@ -1,5 +1,6 @@
 import Rpcx.Model.Select
 import Rpcx.Props.C12
+import Rpcx.Lemmas.ConsistentHash
 /-
   C11: selectors return only live, eligible servers and never crash – theorems about the
   selector models (regenerated round-robin cursor, hand-written weighted ring and doublejump).
@@ -14,7 +15,11 @@ import Rpcx.Props.C12
     `wrr_select_ok`: Select never panics, returns a ring element (eligible), and returns the
     empty result exactly when no server is eligible.  Before the fix the premise
     "all weights positive" failed (D18, witness below).
-  * hash: `ch_empty`, `get_mem` (a result is a stored element); random and closest are covered
+  * hash: `ch_empty`, `get_mem` (a result is a stored element), and over EVERY history of updates
+    `ch_select_live` / `ch_removed_never_selected`: the doublejump holder stays in step with the
+    latest server set (invariant `Sel.Good`: free list sound, no duplicates, holder = set; kept by
+    `Add` and by the swap-with-last `Remove`), so the result is a server of the latest set, never a
+    removed one, never empty while a server exists; random and closest are covered
     by the direct oracle of `harness c11` only (their randomness / floats are not modelled).
 -/
 namespace Rpcx.Props.C11
@@ -243,5 +248,50 @@ theorem get_mem (jh : Nat → Nat → Nat) (d : DJ) (key : Nat) (s : String) (h 
     · split at h
       · cases h
       · right; exact List.mem_of_getElem? h
+
+/-- **Consistent hash, every history**: after construction from any server set and ANY sequence of
+    updates (additions, removals, replacements, re-announcements), with a non-empty current set the
+    selector returns a server of the most recently supplied set – in particular never one that a
+    later update removed, and never the empty result.  (`jh` is jump consistent hash; its contract
+    `JumpOK` is the only hypothesis, checked on the real function by the harness.) -/
+theorem ch_select_live (jh : Nat → Nat → Nat) (hj : JumpOK jh) (keys : List String) (us : List (List String)) (key : Nat)
+    (hne : (us.foldl CH.update (CH.new keys)).servers ≠ []) :
+    ∃ s ∈ (us.foldl CH.update (CH.new keys)).servers, CH.select jh (us.foldl CH.update (CH.new keys)) key = some s := by
+  have g := chgood_run keys us
+  obtain ⟨s, hs, hv⟩ := good_get jh hj _ _ g hne key
+  refine ⟨s, hs, ?_⟩
+  unfold CH.select
+  have : (us.foldl CH.update (CH.new keys)).servers.isEmpty = false := by
+    cases h : (us.foldl CH.update (CH.new keys)).servers <;> simp_all
+  rw [this, hv]
+  rfl
+
+/-- the server list after an update is exactly the supplied set -/
+theorem ch_update_servers (c : CH) (keys : List String) (k : String) : k ∈ (c.update keys).servers ↔ k ∈ keys := by
+  show k ∈ sortStr keys ↔ k ∈ keys
+  exact mem_sortStr' keys k
+
+/-- a removed server is never returned again -/
+theorem ch_removed_never_selected (jh : Nat → Nat → Nat) (hj : JumpOK jh) (keys : List String) (us : List (List String))
+    (last : List String) (gone : String) (hg : gone ∉ last) (hne : last ≠ []) (key : Nat) :
+    CH.select jh ((us ++ [last]).foldl CH.update (CH.new keys)) key ≠ some gone := by
+  have hserv : ∀ k, k ∈ ((us ++ [last]).foldl CH.update (CH.new keys)).servers ↔ k ∈ last := by
+    intro k
+    rw [List.foldl_append]
+    exact ch_update_servers _ last k
+  have hne' : ((us ++ [last]).foldl CH.update (CH.new keys)).servers ≠ [] := by
+    obtain ⟨k0, hk0⟩ := List.exists_mem_of_ne_nil last hne
+    intro e
+    have := (hserv k0).mpr hk0
+    rw [e] at this
+    cases this
+  obtain ⟨s, hs, hv⟩ := ch_select_live jh hj keys (us ++ [last]) key hne'
+  rw [hv]
+  intro e
+  cases e
+  exact hg ((hserv gone).mp hs)
+
+/-- non-vacuity: construct, replace two servers, drop one – the holder is in step with [b, d] -/
+example : ((([["b", "c", "d"], ["d", "b"]] : List (List String)).foldl CH.update (CH.new ["a", "b"])).servers) = ["b", "d"] := by decide
 
 end Rpcx.Props.C11
